@@ -65,6 +65,10 @@ var c06Templates = []string{
 	`(tag ~> $split("-"))[1] & a.$substring(1, 2)`,
 	`$lookup(o, "k") + n.$abs()`,
 	`items[k = "a"].v ~> $string() ~> $pad(-4, "0")`,
+	// a transform whose pattern starts in its copy and reaches back into the (possibly shared) input, next to readers of that part
+	`($ ~> |items.$$.o|{"t": "touched"}, "k"|).o.k & tag`,
+	`($v := o; $ ~> |items[v >= 0].$v|{"t": 1}|; $string(o)) & tag`,
+	`$string($keys(o)) & $string(o.k) & $string($exists(o.t))`,
 	// the order of an input array as it is, next to programs that sort / reverse it
 	`$string(arr[0]) & "," & $string(arr[1]) & "," & $string(arr[-1]) & tag`,
 	`$string($sort(arr)[0]) & $string($reverse(arr)[0]) & $string(items^(k)[0].v)`,
